@@ -13,7 +13,7 @@ RULE = ('all formulas of the stated fragments (<=k operators over the operator/i
         'arithmetic terms; deep, wide, long and large-magnitude layers) x all traces up to the stated length over the value alphabet, each evaluated by the real '
         'offline monitor and compared with the reference rho; a case is non-trivial when the reference output is '
         'not constant +-inf and differs from the output of every direct operand (the top operator mattered); '
-        'cases are distinct by construction (each (formula, trace) pair is enumerated once); life layer: the same comparison on specification objects that were '
+        'cases are distinct by construction (each (formula, trace) pair is enumerated once); for every second formula the caller keeps one data set and refills its lists in place before each evaluate(); life layer: the same comparison on specification objects that were '
         'used under another default unit / sampling period before and then switched through the public setters (all ordered pairs of 4 configurations)')
 ASSUMPTIONS = ['finite dyadic sample values only; NaN/inf inputs out of scope',
                'cases where the reference raises a math domain error are dropped',
@@ -183,7 +183,14 @@ def check_case(case, spec=None):
         spec = impl.build('dt_off', case['spec'], case['vars'], combined=case.get('combined', False), var_type=case.get('var_type', 'float'))
         for pre in case.get('pre', []):
             impl.outcome(impl.dt_evaluate, spec, pre['trace'], pre['times'])
-    kind, val = impl.outcome(impl.dt_evaluate, spec, w, case['times'])
+    if case.get('buffers') is not None:
+        buf = case['buffers']
+        buf['time'][:] = case['times']
+        for v, vals in w.items():
+            buf.setdefault(v, [])[:] = vals
+        kind, val = impl.outcome(spec.evaluate, buf)
+    else:
+        kind, val = impl.outcome(impl.dt_evaluate, spec, w, case['times'])
     if kind != 'ok':
         return 'evaluate() raised %s' % (val,)
     return _values_ok(val, ref, case['times'], exact=bool(case.get('exact')))
@@ -218,10 +225,15 @@ def run_shard(shard, tier, res):
             # one specification object sees growing AND shrinking traces (stale per-object state of a longer evaluation
             # must not leak into a shorter one): even positions ascending, then odd positions descending
             all_traces = all_traces[::2] + all_traces[1::2][::-1]
+            # every second formula: the caller keeps ONE data set (one dict, one list per column) and refills it in place before each evaluate()
+            reuse = (res.formulas % 2 == 0)
+            buf = {'time': []}
             for ti, t in enumerate(all_traces):
                 w = F.trace_dict(t, decl)
                 times = TIMECOLS[ti % 3](len(t))
                 case = {'formula': fj, 'spec': text, 'vars': decl, 'combined': combined, 'trace': w, 'times': times}
+                if reuse:
+                    case['buffers'] = buf
                 if shard['tag'] == 'IntData':
                     case.update(combined=False, var_type='int' if combined else 'float')
                 if shard['tag'] == 'Big':
@@ -236,6 +248,8 @@ def run_shard(shard, tier, res):
                 if ref is not None and not combined and refsem.top_matters(f, w, len(t), ref):
                     res.nontrivial += 1
                 if msg is not None:
+                    if case.pop('buffers', None) is not None:
+                        msg += ' (the caller re-uses one data set, refilled in place before every evaluate())'
                     fresh = check_case(case)
                     if fresh is None and prev is not None:
                         case['pre'] = [prev]
@@ -246,6 +260,8 @@ def run_shard(shard, tier, res):
                     res.outcomes[msg.split(' is ')[0][:40]] += 1
                 else:
                     res.outcomes['agree'] += 1
+                    if case.pop('buffers', None) is not None:
+                        res.flags['evaluations_on_refilled_buffers'] += 1
                 if ti == 7:
                     res.sample({'spec': text, 'trace': w, 'times': times, 'reference': ref})
                 res.digest(text, ti, msg)
